@@ -228,8 +228,141 @@ def conforms(impl, spec_c, spec_sem=None, params=None, compiles=True):
             continue
         order = users + [internal[perm[j]] for j in range(k)]
         if np.abs(V[np.ix_(order, order)] - Sblk).max() < TOL:
+            LAST_ORDER[:] = order
             return None
     return ("U", "transfer matrix differs from the ordered product of the components (no ancilla bijection matches)")
+
+
+LAST_ORDER = []      # spec index (users, ancillas) -> implementation position, of the last successful conforms() with a matrix
+
+
+# ---------------------------------------------------------------- read actions (emulator objects)
+def ps_object(ps):
+    """rule set (set of (modes, counts)) -> lightworks PostSelection, or None for the empty set"""
+    if not ps:
+        return None
+    obj = lw.PostSelection()
+    for modes, counts in sorted(ps):
+        obj.add(tuple(modes), tuple(counts))
+    return obj
+
+
+def exact_prob(num, L):
+    return ring.to_complex(num).real / L
+
+
+def check_read(c, ev, res, spec_c, order):
+    """execute the read action ev on circuit c and compare with the specification's result `res`.
+    returns list of (clause, detail)"""
+    from lightworks import emulator as emu
+    name, a = ev[1], ev[3:]
+    out = []
+    ins = list(a[0])
+    expect_ok = ev[0] == "ok"
+
+    def state(x):
+        return lw.State(list(x))
+
+    try:
+        if name == "simulate":
+            r = emu.Simulator(c).simulate(state(ins))
+            if not expect_ok:
+                return [("input_not_rejected", "Simulator.simulate accepted the invalid input %s" % (ins,))]
+            got = {tuple(o.s): r.array[0, j] for j, o in enumerate(r.outputs)}
+            exp = {tuple(o): ring.to_complex(v[0]) / np.sqrt(v[1]) for o, v in res.items()}
+            if set(got) != set(exp):
+                return [("sim_outputs", "outputs %s, expected %s" % (sorted(got), sorted(exp)))]
+            for o in exp:
+                if abs(got[o] - exp[o]) > TOL:
+                    out.append(("amplitude", "amplitude %s -> %s is %s, exact value %s" % (ins, o, got[o], exp[o])))
+                    break
+            # indexing paths of the result (C17 is checked separately; here only the amplitudes matter)
+        elif name == "sdist":
+            L, table = res
+            table = table if isinstance(table, dict) else {}
+            nloss = len(c.U_full) - c.n_modes
+            exp = {}
+            for pat, num in table.items():
+                full = [0] * c.n_modes
+                for si, pos in enumerate(order):
+                    full[pos] = pat[si]
+                exp[tuple(full)] = exact_prob(num, L)
+            dists = {}
+            for b in ("permanent", "slos"):
+                d = emu.Sampler(c, state(ins), backend=emu.Backend(b)).probability_distribution
+                dists[b] = {tuple(s.s): p for s, p in d.items()}
+                tol = 1e-9 * (1 + len(exp) * (nloss + 1))
+                tot = sum(d.values())
+                if any(p < -1e-12 for p in d.values()):
+                    out.append(("dist", "%s: negative probability" % b))
+                if abs(tot - 1) > tol:
+                    out.append(("dist_norm", "%s backend: distribution for input %s sums to %.9f" % (b, ins, tot)))
+                for pat in set(exp) | set(dists[b]):
+                    if abs(dists[b].get(pat, 0.0) - exp.get(pat, 0.0)) > tol:
+                        out.append(("dist", "%s backend: P(%s) = %.9g, exact value %.9g (input %s)" % (b, pat, dists[b].get(pat, 0.0), exp.get(pat, 0.0), ins)))
+                        break
+            for pat in set(dists["permanent"]) | set(dists["slos"]):
+                if abs(dists["permanent"].get(pat, 0.0) - dists["slos"].get(pat, 0.0)) > 1e-8:
+                    out.append(("dist_backend_mismatch", "permanent %.9g vs slos %.9g on %s" % (dists["permanent"].get(pat, 0), dists["slos"].get(pat, 0), pat)))
+                    break
+        elif name == "analyze":
+            L, table = res
+            table = table if isinstance(table, dict) else {}
+            an = emu.Analyzer(c)
+            pso = ps_object(a[1])
+            if pso is not None:
+                an.post_selection = pso
+            if not table:
+                try:
+                    an.analyze(state(ins))
+                except Exception:  # noqa: BLE001
+                    return out          # no accepted output: refusing is fine
+                return out
+            r = an.analyze(state(ins))
+            got = {tuple(o.s): r.array[0, j] for j, o in enumerate(r.outputs)}
+            exp = {tuple(o): exact_prob(v, L) for o, v in table.items()}
+            if set(got) != set(exp):
+                return [("analyzer_outputs", "analyzer outputs %s, expected %s" % (sorted(got), sorted(exp)))]
+            for o in exp:
+                if abs(got[o] - exp[o]) > 1e-8:
+                    out.append(("analyzer", "analyzer P(%s -> %s) = %.9g, sampler-exact value %.9g" % (ins, o, got[o], exp[o])))
+                    break
+            if abs(r.performance - sum(exp.values())) > 1e-8:
+                out.append(("performance", "performance %.9g, expected mean accepted total %.9g" % (r.performance, sum(exp.values()))))
+            # error rate against the first accepted output as the expected one
+            first = sorted(exp)[0]
+            tot = sum(exp.values())
+            if tot > 1e-9:
+                r2 = an.analyze(state(ins), expected={state(ins): lw.State(list(first))})
+                er = 1 - exp[first] / tot
+                if abs(r2.error_rate - er) > 1e-8:
+                    out.append(("error_rate", "error_rate %.9g, expected %.9g" % (r2.error_rate, er)))
+        elif name == "quick":
+            L, table = res
+            table = table if isinstance(table, dict) else {}
+            exp = {tuple(o): exact_prob(v, L) for o, v in table.items()}
+            exp = {o: p for o, p in exp.items() if p > 1e-9}
+            kw = dict(photon_counting=a[2])
+            pso = ps_object(a[1])
+            if pso is not None:
+                kw["post_select"] = pso
+            if not exp:
+                try:
+                    emu.QuickSampler(c, state(ins), **kw).probability_distribution
+                except Exception:  # noqa: BLE001
+                    return out
+                return [("quick", "quick sampler returned a distribution although no output is accepted")]
+            d = emu.QuickSampler(c, state(ins), **kw).probability_distribution
+            got = {tuple(s.s): p for s, p in d.items()}
+            tot = sum(exp.values())
+            for o in set(exp) | set(got):
+                if abs(got.get(o, 0.0) - exp.get(o, 0.0) / tot) > 1e-8:
+                    out.append(("quick", "quick sampler P(%s) = %.9g, conditioned sampler value %.9g" % (o, got.get(o, 0.0), exp.get(o, 0.0) / tot)))
+                    break
+    except Exception as e:  # noqa: BLE001
+        if expect_ok:
+            out.append(("read_raised/%s/%s" % (name, type(e).__name__), "%s%s raised %s: %s" % (name, tuple(a), type(e).__name__, e)))
+    return out
 
 
 # ---------------------------------------------------------------- replay
@@ -323,6 +456,8 @@ def replay(prog, objs, expected_circ=None, expected_sem=None, params=NOPARAMS, p
       and, at the end, the conformance clauses of `conforms` for every live object."""
     out = []
     for i, ev in enumerate(prog):
+        if ev[1] in ("simulate", "sdist", "analyze", "quick"):
+            continue            # read actions are executed after the final conformance check (they need the index map)
         before = {o: snapshot(c) for o, c in objs.items()}
         nspec = None
         if ev[1] == "compress":
@@ -390,6 +525,26 @@ def replay(prog, objs, expected_circ=None, expected_sem=None, params=NOPARAMS, p
     return out
 
 
+def replay_read(prog, objs, expected_circ, sem_np, res):
+    """the terminal read action of a program: compare with the specification's result and check the frame"""
+    out = []
+    ev = prog[-1]
+    t = ev[2]
+    sc = expected_circ[t - 1]
+    r = conforms(objs[t], sc, sem_np)
+    if r:
+        return [(r[0], len(prog) - 1, "object %d: %s" % (t, r[1]))]
+    order = list(LAST_ORDER)
+    before = {o: snapshot(c) for o, c in objs.items()}
+    for clause, detail in check_read(objs[t], ev, res, sc, order):
+        out.append((clause, len(prog) - 1, detail))
+    after = {o: snapshot(c) for o, c in objs.items()}
+    for o in before:
+        if before[o] != after[o]:
+            out.append(("read_changed_state", len(prog) - 1, "%s changed the observable state of circuit %d" % (ev[1], o)))
+    return out
+
+
 # ---------------------------------------------------------------- dump worker (spec -> code)
 def dump_worker(st, ctx):
     """replay one TLC state (program + expected abstract state); returns a result dict"""
@@ -426,6 +581,10 @@ def dump_worker(st, ctx):
                 r = conforms(c, sc, ev.sem(sc, pv=pval) if comp else None, params if params.objs else None, comp)
                 if r:
                     f.append((r[0], len(prog) - 1, "object %d: %s" % (o, r[1])))
+        if prog and prog[-1][1] in ("simulate", "sdist", "analyze", "quick") and not f:
+            t = prog[-1][2]
+            sm = ring.mat_to_np(semv[t - 1]) if (semv is not None and semv[t - 1] != ()) else ev.sem(circ[t - 1], pv=pval)
+            f += replay_read(prog, objs, circ, sm, st.get("res"))
         res["findings"] = f
     except Drift as d:
         res["drift"] = str(d)
